@@ -104,6 +104,7 @@ ADDENDA = {
     'C03': ' Also: the cut-off does not depend on the lengths of key and bound; a frame is abandoned only when exhausted or pruned and a transition is read only in range; the convenience collectors keep exactly one entry per streamed item.',
     'C04': ' Also: the provided hint methods of the Automaton trait are the trivially sound ones; the cut-off table of bounded searches; frames abandoned only when exhausted or pruned.',
     'C05': ' Also: the emit flag of difference is re-armed per candidate and cleared exactly on key equality; every stream given to an operation builder (add / push / extend / from_iter) reaches the list of input streams.',
+    'C06': ' Also: the two ordering errors are constructed only by the ordering check (R06.7).',
     'C07': ' Also: the adapter does not forward to the inner writer a second time before accounting.',
     'C09': ' Also: files the CLI writes FSTs into are created empty (File::create / truncate / create_new).',
     'C10': ' Also: the format constants and the reader half of the layout table (offsets, scan window, bit fields of every node accessor) are decided under this property too.',
@@ -115,6 +116,18 @@ ADDENDA = {
     'C16': ' Also: the step follows take_while(output <= remaining).last(); success is tested before the first step and concerns one node.',
     'C18': ' Also decided as shape: Str and Subsequence start at position 0, advance by one exactly on byte equality with the pattern byte at the current position, Str matches at its length; provided trait hints.',
     'C19': ' Also: lossless batching of the work list (no chunks_exact / take / truncate), the row iterators over several input files end only when the file list is empty; one worker per iteration of 0..threads; conservation of items in every pipeline loop; the last partial batch is sent; wiring of merger / sort / finish / sends / final copy / --max --min (fst-bin has no tests of its own).',
+}
+
+ADDENDA2 = {
+    'C01': ' Accepted widths 1..8 of the packers; BuilderNode::clone_from replaces the transition list; the output-free prefix scan runs only when no value was given.',
+    'C05': ' What refill takes from a stream goes back on the heap; every key difference takes from its first stream becomes the candidate.',
+    'C08': ' Also: verify() fails only with ChecksumMissing / ChecksumMismatch; the `fst verify` command propagates open and verify failures.',
+    'C09': ' Every FST builder the CLI creates is finished on success; the finish protocol (R11.3) is decided here too.',
+    'C11': ' No explicit panic in the adapter after the inner write.',
+    'C13': ' The node cache is sized once (R12.3 shared); the CLI pipeline uses bounded channels.',
+    'C14': ' Operation constructors do not drain their input streams.',
+    'C16': ' false / None only for the right reason (no transition fits / get_key_into said false); a step taken by index has compared that output with the value.',
+    'C19': ' Option names match fields; named fields are not swapped between same-typed parameters; every path of a first-phase batch sorts (or passes a strict in-order test).',
 }
 
 NOT_APPLICABLE = {
@@ -131,7 +144,7 @@ def main():
         if pid not in CLAIMS:
             continue
         cat, text, note, tech, ref = CLAIMS[pid]
-        text = text + ADDENDA.get(pid, '')
+        text = text + ADDENDA.get(pid, '') + ADDENDA2.get(pid, '')
         checks.append({
             'property_id': pid,
             'quick_cmd': './check %s --tier quick' % pid,
